@@ -1,6 +1,6 @@
 WRAPS = ['psGetEntropy', 'psGetTime', 'psDiffMsecs', 'psCompareTime', 'time',
          'malloc', 'calloc', 'realloc', 'free', 'psVerifySig', 'psVerify', 'matrixValidateCertsExt']
-SRC = ['props/C19/alloc_fault.cc', 'harness/wraps.c', 'harness/c19_alloc_wraps.c']
+SRC = ['props/C19/alloc_fault.cc', 'props/C19/testkeys_data.c', 'harness/wraps.c', 'harness/c19_alloc_wraps.c']
 PROP = dict(
     level='exploration',
     level_text='Bounded-exhaustive single-fault injection inside 51 fixed scenarios (key / CA / PSK / ticket-key loading from files and memory incl. '
